@@ -15,6 +15,10 @@ PROPS = {
             "rule": "ns: random namespace programs (makedir/makedirs/create/touch/writebytes/appendbytes/remove/removedir/removetree/copy/move + reads) over "
                     "mixed name pools x geometries (FAT12/16/32, sector sizes, 1-3 FATs, offsets) x lazy/eager x both formatters, each call compared with the "
                     "reference filesystem; distinct = (configuration, length, set of op kinds). fat: fill-to-full / delete / refill / shrink-grow programs."},
+    "C02": {"suites": ["io", "volume"],
+            "rule": "io: call sequences open(mode)/seek/read/readinto/write/truncate/tell/close generated against a shadow byte-buffer reference so that "
+                    "offsets hit 0, +-1 of cluster multiples, EOF; all modes; 1-3 files, up to 3 handles; cluster sizes 512 B..64 KiB; free clusters pre-filled "
+                    "with garbage; every other file re-read after each write/truncate/close; cursor fields vs Model.FatIO.seekCursor"},
     "C03": {"suites": ["ns", "fat", "names"],
             "rule": "after every completed mutating call (and after close) a copy of the device is mounted by a fresh instance (lazy and eager) and walked; "
                     "compared with the live walk (names, kinds, sizes, contents, times)"},
@@ -55,6 +59,12 @@ MANIFEST_TEXT = {
                     "differential execution of random programs on the real code (not a theorem).",
             "note": _NOTE + "Reference = fs.memoryfs.MemoryFS with fs.base's compound helpers; create() on a directory is FileExpected (pinned by the repo's tests).",
             "technique": "Lean 4 proof (allocator completeness, scan round trip) + differential programs vs reference filesystem"},
+    "C02": {"text": "Theorems: seek's cursor addresses exactly byte `offset` (end-of-cluster convention included); read (size clipping + chunk loop along the "
+                    "chain) returns what a byte buffer returns and moves the position alike, for every cluster size/file size/position/length; clusters of "
+                    "different files are disjoint on the device. write/truncate and mode gating decided by differential execution against a byte-buffer reference.",
+            "note": _NOTE + "Reference file object = harness RefFile (Python binary-file semantics; MemoryFS' own file object has three deviations, documented "
+                    "in fsrun.py). Known finding: seek beyond EOF clamps to the size.",
+            "technique": "Lean 4 proof (read/seek refinement to a byte buffer) + differential call sequences"},
     "C03": {"text": "Theorems: parse(serialise(FAT)) = FAT for FAT12 (every length)/16/32 incl. reserved bits; scan(serialise(directory)) = directory incl. long names, "
                     "whatever follows the end mark. Whether each operation issues the writes is decided by remounting a device copy after every call on the real code.",
             "note": _NOTE, "technique": "Lean 4 proof of the representation round trips + remount-after-every-call oracle"},
